@@ -19,6 +19,10 @@ OpsAlgebra == {"arith", "diag", "reduce", "conj", "expand", "phase", "einsum"}
 OpsEinsum == {"einsum", "transpose", "conj", "phase", "reduce"}
 OpsReshape == {"reshape", "transpose", "phase"}
 OpsReshapeOnly == {"reshape"}
+OpsHunt1 == {"fuse", "reshape", "expand", "transpose"}
+OpsHunt2 == {"fuse", "partner", "tensordot", "conj"}
+OpsHunt3 == {"fuse", "arith", "reduce", "einsum", "diag"}
+OpsHunt4 == {"reshape", "arith", "conj", "phase", "reduce"}
 OpsChain == {"chain"}
 OpsChainD == {"chain", "chain_dangling"}
 OpsStruct == {"transpose", "conj", "expand", "fuse", "phase"}
